@@ -9,6 +9,10 @@ NOTE = ("Trusted: Lean 4.33 kernel; axioms propext, Classical.choice, Quot.sound
         "harness/translate.py; the correspondence check (differential testing, generator quality bounds what it sees). ")
 
 CHECKS = {
+    "C09": dict(
+        text="Proved (on C07's regenerated design-matrix columns and the hand model of _generate_time_constants, whose Float instance is compared with the implementation): multiplying all frequencies by c > 0 divides every time constant by c (tau_closed_form, tau_scale) and multiplies each column by a fixed non-zero factor (kth_Z_scale … ind_Y_scale), i.e. A(c w, tau/c) = A(w, tau) D; least-squares problems are equivariant: scaling the right-hand side scales the minimisers (lsq_scale_rhs: impedance units), an invertible diagonal rescaling of the columns rescales the minimisers inversely (lsq_scale_columns: frequency units), permuting the rows leaves them unchanged (lsq_row_perm: point order); relative residuals are invariant under a common scaling of data and model (residual_scale_invariant). PARTIAL: that the numerical solvers return the equivariant minimiser (conditioning, SVD cut-offs, the dimensional guard constants of the matrix-inversion tests) is decided by the metamorphic oracle on the implementation with tolerances.",
+        ref="§4 C09", tech=TECH_T,
+        note=NOTE + "numpy.linalg (lstsq/pinv/inv) is replaced by its specification; runs whose design matrix has a condition number above 1e8 (before or after the transformation) are outside the quantifier."),
     "C07": dict(
         text="The design-matrix columns of least_squares.py and the element kernels R, K, Ky, C, L are re-translated from /repo on every run. Proved for ALL angular frequencies != 0, any number of RC elements and all variable vectors: every real / imaginary row of A.x is the real / imaginary part of the immittance of the circuit that _update_circuit builds from x, in the impedance representation (series R, K elements, C = 1/x_C, L = x_L: rows_represent_model_Z) and in the admittance representation (parallel R = 1/x_0, Ky elements, C = x_C, L = -1/x_L: rows_represent_model_Y) - this is where a wrong column, sign or reciprocal lives; a least-squares minimiser of a consistent system solves it exactly, recovers the generating variables under full column rank, and the normal equations of the matrix-inversion tests do (lsq_exact_of_consistent, lsq_recovers, normal_equations_exact). Ties: translator cross-check; the row statements re-checked on the real _generate_A_matrix/_generate_circuit/_update_circuit. PARTIAL: 'zero to numerical precision', parameter recovery, the two-stage real/imaginary procedures, the matrix-inversion variants' own matrices and the non-linear test are decided by the end-to-end oracle with tolerances (conditioning, lstsq/pinv/inv, lmfit are runtime).",
         ref="§4 C07", tech=TECH_T,
